@@ -568,6 +568,17 @@ func (env *SpecEnv) btreeSpec(name string, n *ast.CallExpr) (SV, bool) {
 			return env.eval(n.Args[0]), true
 		}
 		return env.nowEnv.eval(n.Args[0]), true
+	case "outer":
+		// outer(e): e in the state at the head of the current iteration of the loop that encloses this loop
+		if env.outerSt == nil {
+			panic("spec: outer() needs an enclosing loop")
+		}
+		o := *env
+		if env.nowEnv == nil {
+			o.nowEnv = env
+		}
+		o.st = env.outerSt
+		return o.eval(n.Args[0]), true
 	case "old":
 		o := *env
 		if env.nowEnv == nil {
